@@ -407,7 +407,7 @@ func (a *List) M__eq__(other Object) (Object, error) {
 		return False, nil
 	}
 	for i := range a.Items {
-		eq, err := Eq(a.Items[i], b.Items[i])
+		eq, err := ItemEq(a.Items[i], b.Items[i])
 		if err != nil {
 			return nil, err
 		}
@@ -431,7 +431,7 @@ func (a *List) M__ne__(other Object) (Object, error) {
 		return True, nil
 	}
 	for i := range a.Items {
-		eq, err := Eq(a.Items[i], b.Items[i])
+		eq, err := ItemEq(a.Items[i], b.Items[i])
 		if err != nil {
 			return nil, err
 		}
